@@ -73,8 +73,13 @@ func (d *Doc) Features() []string {
 			}
 			set["table"] = true
 			headerless := n.CountTag("thead") == 0
-			if headerless && len(n.Kids) > 0 && len(n.Kids[0].Kids) > 0 {
-				for _, c := range n.Kids[0].Kids[0].Kids {
+			secs := n.Kids
+			if len(secs) > 0 && secs[0].Tag == "caption" {
+				set["caption"] = true
+				secs = secs[1:]
+			}
+			if headerless && len(secs) > 0 && len(secs[0].Kids) > 0 {
+				for _, c := range secs[0].Kids[0].Kids {
 					if c.Tag == "th" {
 						headerless = false
 					}
